@@ -80,11 +80,33 @@ func genCondenseCase(rng *rand.Rand, n int, seed int64) *CaseDesc {
 	pf.PInit, pf.PBadInput, pf.PUnused = 0, 0.02, 0.02
 	c := genCase(rng, n, seed, pf)
 	c.HasInit, c.InitIn, c.InitOut = false, nil, nil
+	// one case in five keeps its *Debugging parameters (Condense then pipes the outer chain's Debugging in under a
+	// private type and returns a two-member Sequence); decided from the seed alone, the random stream is as before
+	keepDebug := uint64(seed)%5 == 2
 	for _, p := range c.Provs {
-		p.In = remove(p.In, cDebug)
+		if !keepDebug {
+			p.In = remove(p.In, cDebug)
+		}
 		p.NonFinal = false
 	}
+	if keepDebug && len(c.Provs) > 0 {
+		p := c.Provs[int(uint64(seed)/5)%len(c.Provs)]
+		if p.Kind != "lit" && !contains(p.In, cDebug) {
+			p.In = append(p.In, cDebug)
+		}
+	}
 	return c
+}
+
+// *Debugging is supplied by Bind itself: it is reported as an input, nobody has to supply it
+func stripDebug(cs []int) []int {
+	var out []int
+	for _, c := range cs {
+		if c != cDebug {
+			out = append(out, c)
+		}
+	}
+	return out
 }
 
 func special(cs []int) bool {
@@ -120,6 +142,15 @@ func bindDirect(c *CaseDesc, ins, outs []int, call bool) (verdict string, trace 
 	var coll *nject.Collection
 	if s := guarded(5*time.Second, func() { coll = r.buildCollection("c") }); s != "" {
 		return s, nil, nil
+	}
+	for _, p := range c.Provs {
+		if contains(p.In, cDebug) {
+			// Condense puts a consumer of *Debugging in front of such a collection (it hands the outer chain's Debugging
+			// over): the Debugging provider cannot be pruned there, taking its other consumers with it.  The direct twin
+			// gets the same kind of consumer.
+			coll = nject.Sequence("c", func(*nject.Debugging) {}, coll)
+			break
+		}
 	}
 	invPtr := reflect.New(reflect.FuncOf(typesOf(ins), typesOf(outs), false))
 	var err error
@@ -167,10 +198,23 @@ func runCondenseCase(c *CaseDesc, rng *rand.Rand, spec specFlows, have bool) []s
 	}
 	var ins, outs []int
 	if verdict == "ok" {
-		it, ot := p.DownFlows()
-		ins, outs = codesOf(it), codesOf(ot)
+		// with a *Debugging consumer inside, Condense returns a Sequence: a carrier for the outer chain's *Debugging and the
+		// condensed provider proper, which asks for that carrier where the collection asks for *Debugging
+		fp := p
+		if col, ok := p.(*nject.Collection); ok {
+			col.ForEachProvider(func(q nject.Provider) { fp = q })
+		}
+		it, ot := fp.DownFlows()
+		for _, t := range it {
+			if t.String() == "*nject.bypassDebug" {
+				ins = append(ins, cDebug)
+			} else {
+				ins = append(ins, codeOf(t))
+			}
+		}
+		outs = codesOf(ot)
 		// a provider's DownFlows leaves out a TerminalError result: it shows as an error in UpFlows
-		if _, up := p.UpFlows(); len(up) > 0 {
+		if _, up := fp.UpFlows(); len(up) > 0 {
 			outs = append(outs, cTE)
 		}
 	}
@@ -180,8 +224,8 @@ func runCondenseCase(c *CaseDesc, rng *rand.Rand, spec specFlows, have bool) []s
 	}
 	out = append(out, line)
 	// --- does the collection bind directly, given what the specification says it leaves unresolved / returns?
-	if !spec.none && !special(spec.in) && !special(spec.true) {
-		v, _, _ := bindDirect(c, spec.in, spec.true, false)
+	if !spec.none && !special(stripDebug(spec.in)) && !special(spec.true) {
+		v, _, _ := bindDirect(c, stripDebug(spec.in), spec.true, false)
 		out = append(out, fmt.Sprintf("directspec %d result=%s in=%s out=%s", c.N, v, fmtCodes(spec.in), fmtCodes(spec.true)))
 	} else {
 		out = append(out, fmt.Sprintf("directspec %d result=skip", c.N))
@@ -189,6 +233,7 @@ func runCondenseCase(c *CaseDesc, rng *rand.Rand, spec specFlows, have bool) []s
 	if verdict != "ok" {
 		return out
 	}
+	ins = stripDebug(ins)
 	if special(ins) || special(outs) {
 		return append(out, fmt.Sprintf("cpair %d skip special-types", c.N))
 	}
